@@ -1042,7 +1042,40 @@ func c08ConsOracle(sig string, cs *c08Case, path []int, seq, qual []byte) (fails
 			break
 		}
 	}
+	// "one quality per column": the quality of a column where both reads are present is a function of that
+	// column — the same two (base, quality) pairs aligned alone (reads of one base, path 0,1) get the same value,
+	// whatever the other columns of the alignment hold (formula-free, metamorphic)
+	for k, c := range cols {
+		if !(c.ha && c.hb) {
+			continue
+		}
+		alone, ok := c08ColumnAlone(c.a, c.qa, c.b, c.qb)
+		if !ok {
+			fails = append(fails, Fail{sig + ".qual-local-panic", fmt.Sprintf("column %d alone: BuildQualityConsensus panics", k)})
+			break
+		}
+		if alone != qual[k] {
+			stat("cons:qual-not-local")
+			fails = append(fails, Fail{sig + ".qual-local", fmt.Sprintf("column %d: A=%c/%d B=%c/%d gets quality %d in this alignment, %d when the two bases are aligned alone (the value depends on another column)", k, c.a, c.qa, c.b, c.qb, qual[k], alone)})
+			break
+		}
+	}
 	return fails
+}
+
+var c08ColArena = obialign.MakePEAlignArena(1, 1)
+
+// c08ColumnAlone: the consensus quality of the single column (a,qa)/(b,qb) computed by the real code
+func c08ColumnAlone(a, qa, b, qb byte) (q byte, ok bool) {
+	defer func() {
+		if recover() != nil {
+			ok = false
+		}
+	}()
+	sa := obiseq.NewBioSequenceWithQualities("a", []byte{a}, "", []byte{qa})
+	sb := obiseq.NewBioSequenceWithQualities("b", []byte{b}, "", []byte{qb})
+	cons, _ := obialign.BuildQualityConsensus(sa, sb, []int{0, 1}, false, c08ColArena)
+	return cons.Qualities()[0], true
 }
 
 func (c08) Exec(c string) (string, []Fail) {
